@@ -233,4 +233,297 @@ theorem stripPrefix_spelled {ps : List Str} {p p' : Str} (hp : p ∈ ps) (hg : g
   subst hq'
   simp [List.append_assoc, afterColon_append h58]
 
+
+/-! ### a text that starts with a letter and contains a colon is not a number -/
+
+theorem stripL_nonws {c : Nat} (r : Str) (h : isWs c = false) : stripL (c :: r) = c :: r := by
+  simp [stripL, h]
+
+theorem stripL_append_nonws {c : Nat} (h : isWs c = false) : ∀ (a b : Str), stripL (a ++ c :: b) = stripL a ++ c :: b
+  | [], b => by simp [stripL, h]
+  | x :: a, b => by
+    by_cases hx : isWs x = true
+    · simp [stripL, hx, stripL_append_nonws h a b]
+    · simp [stripL, hx]
+
+theorem mem_stripL {x : Nat} (hx : isWs x = false) : ∀ l : Str, x ∈ l → x ∈ stripL l
+  | [], h => h
+  | c :: l, h => by
+    by_cases hc : isWs c = true
+    · simp only [stripL, hc, if_true]
+      rcases List.mem_cons.mp h with rfl | h'
+      · rw [hx] at hc; cases hc
+      · exact mem_stripL hx l h'
+    · simp only [stripL, hc]
+      exact h
+
+theorem strip_alpha {c : Nat} (r : Str) (h : isWs c = false) :
+    ∃ r', strip (c :: r) = c :: r' ∧ ∀ x, isWs x = false → x ∈ r → x ∈ r' := by
+  refine ⟨(stripL r.reverse).reverse, ?_, ?_⟩
+  · unfold strip
+    rw [stripL_nonws r h, List.reverse_cons, stripL_append_nonws h]
+    simp
+  · intro x hx hm
+    simp only [List.mem_reverse]
+    exact mem_stripL hx _ (List.mem_reverse.mpr hm)
+
+theorem isAlpha_facts {c : Nat} (h : isAlpha c = true) :
+    isWs c = false ∧ isDigit c = false ∧ c ≠ 43 ∧ c ≠ 45 ∧ c ≠ 46 ∧ c ≠ 95 := by
+  simp only [isAlpha, isUpper, isLower, Bool.or_eq_true, Bool.and_eq_true, decide_eq_true_eq] at h
+  refine ⟨?_, ?_, ?_, ?_, ?_, ?_⟩
+  · simp only [isWs, Bool.or_eq_false_iff, Bool.and_eq_false_iff, beq_eq_false_iff_ne, decide_eq_false_iff_not]
+    omega
+  · simp only [isDigit, Bool.and_eq_false_iff, decide_eq_false_iff_not]
+    omega
+  all_goals omega
+
+theorem signOf_alpha {c : Nat} (r : Str) (h : isAlpha c = true) : signOf (c :: r) = (1, c :: r) := by
+  have := isAlpha_facts h
+  unfold signOf
+  split
+  · rename_i heq; simp only [List.cons.injEq] at heq; omega
+  · rename_i heq; simp only [List.cons.injEq] at heq; omega
+  · rfl
+
+theorem digitRun_alpha {c : Nat} (r : Str) (h : isAlpha c = true) : digitRun (c :: r) false [] = ([], c :: r) := by
+  have := isAlpha_facts h
+  simp [digitRun, this.2.1]
+
+/-- `convert_type` leaves a text alone that starts with a letter and contains a colon -/
+theorem convertType_alpha_colon {c : Nat} {r : Str} (hc : isAlpha c = true) (h58 : 58 ∈ r) :
+    convertType (c :: r) = .str := by
+  have hf := isAlpha_facts hc
+  obtain ⟨r', hs, hmem⟩ := strip_alpha r hf.1
+  have h58' : 58 ∈ r' := hmem 58 (by decide) h58
+  have hint : parseInt (c :: r) = none := by
+    simp [parseInt, hs, signOf_alpha r' hc, digitRun_alpha r' hc]
+  have hlow : (58 : Nat) ∈ lower (c :: r') := (mem_lower_iff (by decide) (by decide)).mpr (List.mem_cons_of_mem _ h58')
+  have hne : ∀ w : Str, 58 ∉ w → (lower (c :: r') == w) = false := by
+    intro w hw
+    apply beq_eq_false_iff_ne.mpr
+    intro e; exact hw (e ▸ hlow)
+  have hfl : parseFloat (c :: r) = .bad := by
+    unfold parseFloat
+    simp only [hs, signOf_alpha r' hc, hne _ (by decide : (58:Nat) ∉ str% "inf"), hne _ (by decide : (58:Nat) ∉ str% "infinity"),
+      hne _ (by decide : (58:Nat) ∉ str% "nan"), Bool.or_false, digitRun_alpha r' hc]
+    split
+    · rename_i hcond
+      exact absurd hcond (by decide)
+    · split
+      · rename_i h; simp only [List.cons.injEq] at h; omega
+      · simp
+  simp [convertType, hint, hfl]
+
+
+/-! ### which branch of `_parse_mod_mass` / `_parse_mod_comp` a spelling takes -/
+
+theorem startsWith_head_ne {c d : Nat} (r q : Str) (h : c ≠ d) : startsWith (c :: r) (d :: q) = false := by
+  simp [startsWith, List.isPrefixOf, Ne.symm h]
+
+/-- all prefixes of the family start with a character different from `c` -/
+def headsAvoid (ps : List Str) (c : Nat) : Bool := ps.all (fun p => match p with | d :: _ => d != c | [] => false)
+
+theorem hasPrefix_head_false {ps : List Str} {c : Nat} {m r : Str} (hps : headsAvoid ps c = true)
+    (hm : lower m = c :: r) : hasPrefix ps m = false := by
+  simp only [hasPrefix, hm]
+  apply List.any_eq_false.mpr
+  intro p hp
+  simp only [headsAvoid, List.all_eq_true] at hps
+  have := hps p hp
+  cases p with
+  | nil => simp at this
+  | cons d q =>
+    simp only [bne_iff_ne, ne_eq] at this
+    simp [startsWith_head_ne r q (Ne.symm this)]
+
+theorem startsWith_lower_head_false {c d : Nat} {m r q : Str} (hm : lower m = c :: r) (h : c ≠ d) :
+    startsWith (lower m) (d :: q) = false := by
+  rw [hm]; exact startsWith_head_ne r q h
+
+theorem contains_false {x : Nat} {m : Str} (h : x ∉ m) : m.contains x = false := by
+  simpa using h
+
+/-- the head of `lower (p' ++ k)` when `lower p' = d :: q` -/
+theorem lower_head {p' k q : Str} {d : Nat} (hl : lower p' = d :: q) : lower (p' ++ k) = d :: (q ++ lower k) := by
+  rw [lower_append, hl]; rfl
+
+/-- a spelled prefix starts with a letter and the whole spelling contains a colon: not a number -/
+theorem convertType_spelled {p p' : Str} (hg : goodPrefix p = true) (hl : lower p' = p) {d : Nat} {q : Str}
+    (hp : p = d :: q) (hd : isLower d = true) (k : Str) : convertType (p' ++ k) = .str := by
+  obtain ⟨q', hq', _, _, _⟩ := spelled_decomp hg hl
+  cases p' with
+  | nil => simp at hq'
+  | cons c r =>
+    have hc : toLowerC c = d := by
+      rw [hp] at hl; simp [lower] at hl; exact hl.1
+    have halpha : isAlpha c = true := by
+      unfold toLowerC at hc
+      simp only [isAlpha, Bool.or_eq_true]
+      split at hc
+      · left; assumption
+      · right; rw [hc]; exact hd
+    have h58 : (58 : Nat) ∈ r ++ k := by
+      have : (58 : Nat) ∈ c :: r := by rw [hq']; simp
+      rcases List.mem_cons.mp this with h | h
+      · subst h; simp [isAlpha, isUpper, isLower] at halpha
+      · exact List.mem_append_left _ h
+    exact convertType_alpha_colon halpha h58
+
+
+theorem pUnimod_good : ∀ p ∈ pUnimod, goodPrefix p = true := by decide
+theorem pPsi_good : ∀ p ∈ pPsi, goodPrefix p = true := by decide
+theorem pXlmod_good : ∀ p ∈ pXlmod, goodPrefix p = true := by decide
+
+/-- the string is neither a PSI-MOD accession nor a PSI-MOD name -/
+def notPsiKey (T : Tables) (s : Str) : Prop := byId T.psimod s = none ∧ byName T.psimod s = none
+
+/-- `U:` / `UNIMOD:` spellings (any letter case) reach `parse_unimod_mass` with the key -/
+theorem parseModMass_unimod_prefixed {T : Tables} {p p' k : Str} (mono : Bool) (hp : p ∈ pUnimod) (hl : lower p' = p)
+    (hk : 35 ∉ k) (hpsi : notPsiKey T (p' ++ k)) :
+    parseModMass T (p' ++ k) mono = (getMass T T.unimod k mono).map some := by
+  have hg := pUnimod_good p hp
+  obtain ⟨_, _, _, h35, _⟩ := spelled_decomp hg hl
+  have hm35 : (p' ++ k).contains 35 = false := contains_false (by simp [h35, hk])
+  have hstrip := stripPrefix_spelled hp hg hl k
+  have hpre := hasPrefix_spelled hp hl k
+  obtain ⟨q, hq⟩ : ∃ q, p = 117 :: q := by
+    simp only [pUnimod, List.mem_cons, List.not_mem_nil, or_false] at hp
+    rcases hp with rfl | rfl <;> exact ⟨_, rfl⟩
+  have hconv := convertType_spelled hg hl hq (by decide) k
+  have hlow := lower_head (k := k) (hq ▸ hl)
+  have hPsiPre : hasPrefix pPsi (p' ++ k) = false := hasPrefix_head_false (by decide) hlow
+  unfold parseModMass
+  simp only [hm35, Bool.false_and, hconv, if_false, Bool.false_eq_true]
+  rw [startsWith_lower_head_false hlow (by decide), hasPrefix_head_false (c := 117) (by decide) hlow,
+    hasPrefix_head_false (c := 117) (by decide) hlow, hasPrefix_head_false (c := 117) (by decide) hlow,
+    startsWith_lower_head_false hlow (by decide)]
+  simp only [isDbStr, hPsiPre, hpsi.1, hpsi.2, hpre, hstrip, Option.isSome_none, Bool.or_false, Bool.false_eq_true, if_false,
+    Bool.true_or, if_true]
+
+
+/-- `M:` / `MOD:` / `PSI-MOD:` spellings reach `parse_psi_mass` with the key (no condition on the tables) -/
+theorem parseModMass_psi_prefixed {T : Tables} {p p' k : Str} (mono : Bool) (hp : p ∈ pPsi) (hl : lower p' = p)
+    (hk : 35 ∉ k) : parseModMass T (p' ++ k) mono = (getMass T T.psimod k mono).map some := by
+  have hg := pPsi_good p hp
+  obtain ⟨_, _, _, h35, _⟩ := spelled_decomp hg hl
+  have hm35 : (p' ++ k).contains 35 = false := contains_false (by simp [h35, hk])
+  have hstrip := stripPrefix_spelled hp hg hl k
+  have hpre := hasPrefix_spelled hp hl k
+  obtain ⟨d, q, hq, hd⟩ : ∃ d q, p = d :: q ∧ (d = 109 ∨ d = 112) := by
+    simp only [pPsi, List.mem_cons, List.not_mem_nil, or_false] at hp
+    rcases hp with rfl | rfl | rfl
+    · exact ⟨_, _, rfl, Or.inl rfl⟩
+    · exact ⟨_, _, rfl, Or.inl rfl⟩
+    · exact ⟨_, _, rfl, Or.inr rfl⟩
+  have hlow := lower_head (k := k) (hq ▸ hl)
+  unfold parseModMass
+  rcases hd with rfl | rfl
+  · have hconv := convertType_spelled hg hl hq (by decide) k
+    simp only [hm35, Bool.false_and, hconv, if_false, Bool.false_eq_true]
+    rw [startsWith_lower_head_false hlow (by decide), hasPrefix_head_false (c := 109) (by decide) hlow,
+      hasPrefix_head_false (c := 109) (by decide) hlow, hasPrefix_head_false (c := 109) (by decide) hlow,
+      startsWith_lower_head_false hlow (by decide)]
+    simp only [isDbStr, hpre, hstrip, Bool.true_or, Bool.false_eq_true, if_false, if_true]
+  · have hconv := convertType_spelled hg hl hq (by decide) k
+    simp only [hm35, Bool.false_and, hconv, if_false, Bool.false_eq_true]
+    rw [startsWith_lower_head_false hlow (by decide), hasPrefix_head_false (c := 112) (by decide) hlow,
+      hasPrefix_head_false (c := 112) (by decide) hlow, hasPrefix_head_false (c := 112) (by decide) hlow,
+      startsWith_lower_head_false hlow (by decide)]
+    simp only [isDbStr, hpre, hstrip, Bool.true_or, Bool.false_eq_true, if_false, if_true]
+
+/-- `X:` / `XLMOD:` spellings reach `parse_xlmod_mass` with the key -/
+theorem parseModMass_xlmod_prefixed {T : Tables} {p p' k : Str} (mono : Bool) (hp : p ∈ pXlmod) (hl : lower p' = p)
+    (hk : 35 ∉ k) : parseModMass T (p' ++ k) mono = (getMass T T.xlmod k mono).map some := by
+  have hg := pXlmod_good p hp
+  obtain ⟨_, _, _, h35, _⟩ := spelled_decomp hg hl
+  have hm35 : (p' ++ k).contains 35 = false := contains_false (by simp [h35, hk])
+  have hstrip := stripPrefix_spelled hp hg hl k
+  have hpre := hasPrefix_spelled hp hl k
+  obtain ⟨q, hq⟩ : ∃ q, p = 120 :: q := by
+    simp only [pXlmod, List.mem_cons, List.not_mem_nil, or_false] at hp
+    rcases hp with rfl | rfl <;> exact ⟨_, rfl⟩
+  have hconv := convertType_spelled hg hl hq (by decide) k
+  have hlow := lower_head (k := k) (hq ▸ hl)
+  unfold parseModMass
+  simp only [hm35, Bool.false_and, hconv, if_false, Bool.false_eq_true]
+  rw [startsWith_lower_head_false hlow (by decide), hasPrefix_head_false (c := 120) (by decide) hlow]
+  simp only [hpre, hstrip, Bool.false_eq_true, if_false, if_true]
+
+/-! compositions -/
+
+/-- `parse_chem_formula(parse_*_comp(key))` -/
+def compOfKey (db : List Entry) (k : Str) : Except Err (Option Comp) :=
+  match getComp db k with
+  | .error e => .error e
+  | .ok f => (parseChem f []).map some
+
+theorem dbComp_eq (db : List Entry) (ps : List Str) (m : Str) : dbComp db ps m = compOfKey db (stripPrefix ps m) := rfl
+
+theorem parseModComp_unimod_prefixed {T : Tables} {p p' k : Str} (hp : p ∈ pUnimod) (hl : lower p' = p)
+    (hk : 35 ∉ k) (hpsi : notPsiKey T (p' ++ k)) : parseModComp T (p' ++ k) = compOfKey T.unimod k := by
+  have hg := pUnimod_good p hp
+  obtain ⟨_, _, _, h35, _⟩ := spelled_decomp hg hl
+  have hm35 : (p' ++ k).contains 35 = false := contains_false (by simp [h35, hk])
+  have hstrip := stripPrefix_spelled hp hg hl k
+  have hpre := hasPrefix_spelled hp hl k
+  obtain ⟨q, hq⟩ : ∃ q, p = 117 :: q := by
+    simp only [pUnimod, List.mem_cons, List.not_mem_nil, or_false] at hp
+    rcases hp with rfl | rfl <;> exact ⟨_, rfl⟩
+  have hconv := convertType_spelled hg hl hq (by decide) k
+  have hlow := lower_head (k := k) (hq ▸ hl)
+  have hPsiPre : hasPrefix pPsi (p' ++ k) = false := hasPrefix_head_false (by decide) hlow
+  unfold parseModComp
+  simp only [hm35, Bool.false_and, hconv, if_false, Bool.false_eq_true]
+  rw [startsWith_lower_head_false hlow (by decide), hasPrefix_head_false (c := 117) (by decide) hlow,
+    hasPrefix_head_false (c := 117) (by decide) hlow, hasPrefix_head_false (c := 117) (by decide) hlow,
+    startsWith_lower_head_false hlow (by decide), startsWith_lower_head_false hlow (by decide)]
+  simp only [isDbStr, hPsiPre, hpsi.1, hpsi.2, hpre, dbComp_eq, hstrip, Option.isSome_none, Bool.or_false, Bool.false_eq_true,
+    if_false, Bool.true_or, if_true]
+
+theorem parseModComp_psi_prefixed {T : Tables} {p p' k : Str} (hp : p ∈ pPsi) (hl : lower p' = p)
+    (hk : 35 ∉ k) : parseModComp T (p' ++ k) = compOfKey T.psimod k := by
+  have hg := pPsi_good p hp
+  obtain ⟨_, _, _, h35, _⟩ := spelled_decomp hg hl
+  have hm35 : (p' ++ k).contains 35 = false := contains_false (by simp [h35, hk])
+  have hstrip := stripPrefix_spelled hp hg hl k
+  have hpre := hasPrefix_spelled hp hl k
+  obtain ⟨d, q, hq, hd⟩ : ∃ d q, p = d :: q ∧ (d = 109 ∨ d = 112) := by
+    simp only [pPsi, List.mem_cons, List.not_mem_nil, or_false] at hp
+    rcases hp with rfl | rfl | rfl
+    · exact ⟨_, _, rfl, Or.inl rfl⟩
+    · exact ⟨_, _, rfl, Or.inl rfl⟩
+    · exact ⟨_, _, rfl, Or.inr rfl⟩
+  have hlow := lower_head (k := k) (hq ▸ hl)
+  unfold parseModComp
+  rcases hd with rfl | rfl
+  · have hconv := convertType_spelled hg hl hq (by decide) k
+    simp only [hm35, Bool.false_and, hconv, if_false, Bool.false_eq_true]
+    rw [startsWith_lower_head_false hlow (by decide), hasPrefix_head_false (c := 109) (by decide) hlow,
+      hasPrefix_head_false (c := 109) (by decide) hlow, hasPrefix_head_false (c := 109) (by decide) hlow,
+      startsWith_lower_head_false hlow (by decide), startsWith_lower_head_false hlow (by decide)]
+    simp only [isDbStr, hpre, dbComp_eq, hstrip, Bool.true_or, Bool.false_eq_true, if_false, if_true]
+  · have hconv := convertType_spelled hg hl hq (by decide) k
+    simp only [hm35, Bool.false_and, hconv, if_false, Bool.false_eq_true]
+    rw [startsWith_lower_head_false hlow (by decide), hasPrefix_head_false (c := 112) (by decide) hlow,
+      hasPrefix_head_false (c := 112) (by decide) hlow, hasPrefix_head_false (c := 112) (by decide) hlow,
+      startsWith_lower_head_false hlow (by decide), startsWith_lower_head_false hlow (by decide)]
+    simp only [isDbStr, hpre, dbComp_eq, hstrip, Bool.true_or, Bool.false_eq_true, if_false, if_true]
+
+theorem parseModComp_xlmod_prefixed {T : Tables} {p p' k : Str} (hp : p ∈ pXlmod) (hl : lower p' = p)
+    (hk : 35 ∉ k) : parseModComp T (p' ++ k) = compOfKey T.xlmod k := by
+  have hg := pXlmod_good p hp
+  obtain ⟨_, _, _, h35, _⟩ := spelled_decomp hg hl
+  have hm35 : (p' ++ k).contains 35 = false := contains_false (by simp [h35, hk])
+  have hstrip := stripPrefix_spelled hp hg hl k
+  have hpre := hasPrefix_spelled hp hl k
+  obtain ⟨q, hq⟩ : ∃ q, p = 120 :: q := by
+    simp only [pXlmod, List.mem_cons, List.not_mem_nil, or_false] at hp
+    rcases hp with rfl | rfl <;> exact ⟨_, rfl⟩
+  have hconv := convertType_spelled hg hl hq (by decide) k
+  have hlow := lower_head (k := k) (hq ▸ hl)
+  unfold parseModComp
+  simp only [hm35, Bool.false_and, hconv, if_false, Bool.false_eq_true]
+  rw [startsWith_lower_head_false hlow (by decide), hasPrefix_head_false (c := 120) (by decide) hlow]
+  simp only [hpre, dbComp_eq, hstrip, Bool.false_eq_true, if_false, if_true]
+
 end ModDb
